@@ -11,8 +11,10 @@ from __future__ import annotations
 import copy
 import io
 import json
+import pickle
 
 from rt import impl, ref_pointer as rp
+from rt.foundry import ForeignFailed, foreign
 from rt.jsonval import aliased_containers, canon, containers, h, nodes, strict_eq
 
 from .c05 import DOCS, VALUES, paths_for, test_values
@@ -72,7 +74,7 @@ def install_contracts():
 
 def plan(tier, seed):
     n = 14 if tier == "quick" else 46
-    return [{"kind": "flags"}] + [{"n": 3000 if tier == "quick" else 30000} for _ in range(n)]
+    return [{"kind": "flags"}] + [{"kind": "threads", "rounds": 25 if tier == "quick" else 150} for _ in range(2 if tier == "quick" else 6)] + [{"n": 3000 if tier == "quick" else 30000} for _ in range(n)]
 
 
 def build_chain(ops, jsonpath, pointer_objects=False):
@@ -176,8 +178,15 @@ def check(ctx, doc, ops, directed):
     forms["dicts"] = f1.value
     text = json.dumps(ops)
     for name, fn in (("text", lambda: jsonpath.JSONPatch(text)), ("file", lambda: jsonpath.JSONPatch(io.StringIO(text))), ("builder", lambda: build_chain(copy.deepcopy(ops), jsonpath)), ("builder-with-pointer-objects", lambda: build_chain(copy.deepcopy(ops), jsonpath, pointer_objects=True)),
-                     ("asdicts", lambda: jsonpath.JSONPatch(copy.deepcopy(f1.value.asdicts())))):
+                     ("asdicts", lambda: jsonpath.JSONPatch(copy.deepcopy(f1.value.asdicts()))), ("deepcopy", lambda: copy.deepcopy(f1.value)), ("pickle", lambda: pickle.loads(pickle.dumps(f1.value))),
+                     ("another-interpreter", lambda: foreign("patch", copy.deepcopy(ops)))):
+        if name == "another-interpreter" and ctx.rng.random() > 0.1:
+            continue
         o = impl.call(fn)
+        if not o.ok and isinstance(o.exc, ForeignFailed):
+            ctx.count("other_interpreter_could_not_deliver")
+            continue
+        ctx.cell("forms", name)
         if not o.ok:
             ctx.violation("patch-construction-raised:%s:%s" % (name, type(o.exc).__name__), case, {"ops": ops, "form": name, "error": o.desc()})
             return
@@ -240,9 +249,86 @@ def check(ctx, doc, ops, directed):
         ctx.sample({"doc": canon(doc)[:100], "ops": ops, "outcome": want[0]})
 
 
+def tagged(v, tag, n=None):
+    """A deep copy of v whose string leaves carry `tag`, so that every document of a concurrent run holds values no
+    other document has: a value that turns up in the wrong document names where it came from."""
+    if isinstance(v, dict):
+        return {k: tagged(x, tag) for k, x in v.items()}
+    if isinstance(v, list):
+        return [tagged(x, tag) for x in v]
+    if isinstance(v, str) or (isinstance(v, (int, float)) and not isinstance(v, bool)):
+        return "%s@%s" % (v, tag)
+    return v
+
+
+def run_threads(ctx, rounds, fixed=None):
+    """One patch object applied by 8 threads at once, each to documents of its own; every result against the model
+    for that document (yields injected at statement starts inside patch.py / pointer.py)."""
+    import jsonpath
+
+    from rt.threads import stress
+
+    r = ctx.rng
+    for _round in range(rounds):
+        template = copy.deepcopy(r.choice([d for d in DOCS if isinstance(d, (dict, list))]))
+        anything = r.random() < 0.25
+        for _try in range(60):
+            ops, _ = gen_ops(r, template)
+            if anything:
+                break
+            try:   # mostly: patches that move or copy something and apply to the end
+                rp.apply_patch(copy.deepcopy(template), ops)
+            except (rp.PatchFail, rp.Unspecified):
+                continue
+            if any(o["op"] in ("move", "copy") for o in ops):
+                break
+        if fixed:
+            template, ops = copy.deepcopy(fixed[0]), copy.deepcopy(fixed[1])
+        patches = [jsonpath.JSONPatch(copy.deepcopy(ops)), build_chain(copy.deepcopy(ops), jsonpath)]
+        before = [canon(p.asdicts()) for p in patches]
+        errors = []
+        applied = [0]
+
+        def worker(wid, rr):
+            for k in range(6):
+                doc = tagged(template, "w%dk%d" % (wid, k)) if rr.random() < 0.8 else copy.deepcopy(template)
+                try:
+                    want = ("ok", canon(rp.apply_patch(doc, ops)))
+                except rp.PatchFail:
+                    want = ("raise", "JSONPatchError")
+                except rp.Unspecified:
+                    continue
+                p = patches[(wid + k) % 2]
+                got = outcome(impl.call(p.apply, copy.deepcopy(doc)), jsonpath)
+                applied[0] += 1
+                if got != want:
+                    errors.append({"ops": ops, "doc": canon(doc)[:300], "thread": wid, "got": repr(got)[:400], "model": repr(want)[:400]})
+
+        st = stress(worker, nthreads=8, files=("patch.py", "pointer.py", "_data.py"), seed=r.random(), prob=0.1)
+        ctx.evaluation(applied[0])
+        ctx.count("concurrent_applications", applied[0])
+        ctx.count("yields_injected", st["yields"])
+        ctx.count("thread_switches_at_yield_points", st["switches"])
+        ctx.cell("thread_interleaving_signatures", st["signature"])
+        ctx.hashes.add("thr-" + st["signature"])
+        case = {"kind": "threads", "template": template, "ops": ops}
+        if st["timed_out"]:
+            ctx.count("thread_round_timed_out")
+            continue
+        for e in errors[:2]:
+            ctx.violation("concurrent-application-of-one-patch-differs-from-model", case, e)
+        if [canon(p.asdicts()) for p in patches] != before:
+            ctx.violation("patch-modified-by-concurrent-apply", case, {"ops": ops})
+        if errors:
+            return
+
+
 def run(spec, ctx):
     install_contracts()
     r = ctx.rng
+    if spec.get("kind") == "threads":
+        run_threads(ctx, spec["rounds"])
+        return
     if spec.get("kind") == "flags":
         from rt import flag_history
 
@@ -274,5 +360,8 @@ def replay(case, ctx):
         from rt import flag_history
 
         flag_history.run(ctx)
+        return
+    if case.get("kind") == "threads":
+        run_threads(ctx, 40, fixed=(case["template"], case["ops"]))
         return
     check(ctx, case["doc"], case["ops"], True)
